@@ -311,12 +311,7 @@ func (v *Verifier) applyContract(st *State, in *ssa.Call, c *Contract, fn *ssa.F
 	oldLW := st.lw()
 	if !c.Pure {
 		for _, m := range append(append([]string{}, c.Modifies...), c.Allocs...) {
-			var cell *Sort
-			if fn != nil {
-				cell = v.cellSortByName(fn, m)
-			} else {
-				cell = v.cellSortByName(st.top().fn, m)
-			}
+			cell := v.cellSortByName(c.Pkg.Types, m)
 			old := st.getHeap(cell)
 			isAllocOnly := false
 			for _, a := range c.Allocs {
